@@ -329,8 +329,13 @@ func readContracts(path string) (map[string]*Contract, error) {
 		}
 		switch word {
 		case "func":
-			cur = &Contract{Func: strings.TrimSpace(rest), Loops: map[int]*LoopContract{}, Line: ln + 1}
-			out[cur.Func] = cur
+			name := strings.TrimSpace(rest)
+			if c, ok := out[name]; ok {
+				cur = c // a later block for the same function adds clauses
+			} else {
+				cur = &Contract{Func: name, Loops: map[int]*LoopContract{}, Line: ln + 1}
+				out[cur.Func] = cur
+			}
 			curLoop = nil
 			lastClause = nil
 		case "requires", "ensures", "assigns", "invariant", "decreases":
@@ -391,8 +396,12 @@ func readContracts(path string) (map[string]*Contract, error) {
 			if err != nil {
 				return nil, fmt.Errorf("%s:%d: bad loop ordinal", path, ln+1)
 			}
-			curLoop = &LoopContract{}
-			cur.Loops[n] = curLoop
+			if lcx, ok := cur.Loops[n]; ok {
+				curLoop = lcx
+			} else {
+				curLoop = &LoopContract{}
+				cur.Loops[n] = curLoop
+			}
 		case "type-invariant":
 			// type-invariant (*T): <expr over self>   -- required and ensured by every exported method of *T
 			i := strings.Index(rest, ":")
